@@ -162,6 +162,19 @@ def drive_tree(rec, root, kindname, rng, full_stops=True):
             root.find_type(t)
         for i in ("i0", "i1", "i2", "nope"):
             root.find_id(i)
+        if rng.random() < 0.3:
+            # an id is whatever the caller assigns (the constructor only generates one for None): empty, zero
+            # and other falsy or unusual values are ids like any other
+            odd = ["", 0, 0.0, False, (), -1, 1, "0", b"", 10 ** 30, "mn-1", " "]
+            chosen = rng.sample(nodes, min(len(nodes), 3))
+            was = [x.id for x in chosen]
+            for x in chosen:
+                x.id = rng.choice(odd)
+            core.REC.arm("query:find_id:unusual-ids")
+            for i in [x.id for x in chosen] + rng.sample(odd, 3):
+                root.find_id(i)
+            for x, w_ in zip(chosen, was):
+                x.id = w_
         if n > 1:
             sub = nodes[rng.randrange(1, n)]
             sub.to_list("inorder")
